@@ -2,13 +2,14 @@
 //! and the property oracle on the implementation.
 //!
 //! T2 case syntax (names are the hex of the uncompressed absolute wire form):
+//!   bm <t,t,..|-> <p,p,..|-> <builder|new|new_vec|with_builder|scan>   the constructor the builder came from
 //!   bm <t,t,..|-> <p,p,..|->                     => <bitmap hex> <1|0|P per probe> <types yielded by iter()>
 //!   nsec <apex> <dnskey> <name>/<rtype>/<class>/<ttl>/<soa minimum> ..
 //!                                                => Ok <owner>/<next>/<bitmap>/<ttl>/<class> .. | Err n | Panic
 //!   nsec3 <apex> <dnskey> <alg> <flags> <iters> <salt> <excl> <s|m|f<ttl>> <name>/<rtype>/<class>/<ttl>/<min> ..
 //!                                                => Ok <alg>/<flags>/<iters>/<salt> <param owner>/<class>/<ttl>/<alg>/<flags>/<iters>/<salt> <class> <hash>/<next>/<bitmap>/<ttl> .. | Err n | Panic
 //!      (the first word: the parameters carried by the NSEC3 records, MIXED if they differ among them)
-//!   hash <name> <iters> <salt>                   => <hash hex>
+//!   hash <name> <iters> <salt> [flat|ref|chain<k>|parsed]  => <hash hex>   (the ToName representation handed to nsec3_hash)
 //!   dedup <name>/<rtype>/<u|k>/<rdata> ..        => <name>/<rtype> ..   (SortedRecords' dedup)
 //!   label <hash> <apex>                          => Ok <owner name> <decoded first label>
 //!   sro (V|E|I <name>/<rtype>/<u|k>/<rdata> ..) ..  => <name>/<rtype>/<rdata> ..   (From<Vec> / extend / insert, in sequence, on one SortedRecords)
@@ -543,6 +544,9 @@ fn run_nsec3(out: &mut Out, z: &Zone, sp: &Spec, c: &Cfg3, r: &mut Rng) {
                 let want = match c.pmode { 1 => m, 2 => 1234, _ => t };
                 out.check(p.ttl().as_secs() == want, "nsec3param_ttl", &case, &format!("TTL {} want {}", p.ttl().as_secs(), want));
                 for x in &recs { out.check(x.ttl == t.min(m), "nsec3_ttl", &case, &format!("TTL {} want {}", x.ttl, t.min(m))); }
+                // the chain belongs to the zone: its records carry the zone's class (generate_nsecs takes it from the SOA)
+                out.check(pclass == z.class && recs.iter().all(|x| x.class == z.class), "nsec3_class_not_zone_class", &case,
+                    &format!("zone class {} but NSEC3PARAM class {} and NSEC3 classes {:?}", z.class, pclass, recs.iter().map(|x| x.class).collect::<BTreeSet<_>>()));
             }
             let pw = |a: u8, f: u8, i: u16, sl: &[u8]| format!("{}/{}/{}/{}", a, f, i, hex(sl));
             let rec_params = match recs.first() {
@@ -616,7 +620,10 @@ fn run_nsec3(out: &mut Out, z: &Zone, sp: &Spec, c: &Cfg3, r: &mut Rng) {
                     for t in w.difference(&set) { out.check(false, "nsec3_bitmap_missing_type", &case, &format!("{} lacks type {}", hex(&wire(n)), t)); }
                     for t in set.difference(w) { out.check(false, "nsec3_bitmap_extra_type", &case, &format!("{} has type {}", hex(&wire(n)), t)); }
                     out.check(*w == set, "nsec3_bitmap_exact", &case, "");
+                    // an empty non-terminal's NSEC3 has no window at all
+                    if ents.contains(n) { out.check(x.types.is_empty(), "nsec3_ent_bitmap_not_empty", &case, &hex(&x.types)); }
                 }
+                out.check(RtypeBitmap::from_octets(x.types.clone()).is_ok(), "nsec3_bitmap_unparseable", &case, &hex(&x.types));
                 parsed.push(set);
             }
         }
@@ -634,14 +641,48 @@ fn run_nsec3(out: &mut Out, z: &Zone, sp: &Spec, c: &Cfg3, r: &mut Rng) {
 }
 
 fn run_hash(out: &mut Out, n: &Labels, iters: u16, salt: &[u8]) {
-    let case = format!("hash {} {} {}", hex(&wire(n)), iters, hex(salt));
-    out.begin(&case);
-    let nm = mk_name(n);
     let s = Nsec3Salt::from_octets(Bytes::from(salt.to_vec())).unwrap();
-    let res = catch_mut(|| nsec3_hash::<_, _, Vec<u8>>(&nm, Nsec3HashAlgorithm::SHA1, iters, &s).map(|h: OwnerHash<Vec<u8>>| h.as_slice().to_vec()));
-    let obs = match &res { Ok(Ok(h)) => hex(h), Ok(Err(_)) => "Err".into(), Err(_) => "Panic".into() };
-    out.case(&case, &obs, iters > 0 || !salt.is_empty(), "hash");
-    out.check(obs == hex(&ih(n, iters, salt)), "nsec3_hash", &case, &obs);
+    let want = hex(&ih(n, iters, salt));
+    // the same name in every representation nsec3_hash accepts (N: ToName): all must hash the
+    // lower-cased wire form
+    let mut reprs: Vec<String> = vec!["flat".into(), "ref".into(), "parsed".into()];
+    for k in 0..n.len() { reprs.push(format!("chain{}", k)); }
+    for repr in reprs {
+        let case = format!("hash {} {} {} {}", hex(&wire(n)), iters, hex(salt), repr);
+        out.begin(&case);
+        let res: Result<Result<Vec<u8>, ()>, String> = catch_mut(|| {
+            let h = |r: Result<OwnerHash<Vec<u8>>, Nsec3HashError>| r.map(|h| h.as_slice().to_vec()).map_err(|_| ());
+            match repr.as_str() {
+                "flat" => h(nsec3_hash::<_, _, Vec<u8>>(mk_name(n), Nsec3HashAlgorithm::SHA1, iters, &s)),
+                "ref" => { let v: Name<Vec<u8>> = Name::from_octets(wire(n)).unwrap(); h(nsec3_hash::<_, _, Vec<u8>>(&v, Nsec3HashAlgorithm::SHA1, iters, &s)) }
+                "parsed" => {
+                    // a message: header, the last label(s) at offset 12, then the first labels and a pointer to 12
+                    let split = n.len() / 2;
+                    let mut msg = vec![0u8; 12];
+                    msg.extend_from_slice(&wire(&n[split..].to_vec()));
+                    let start = msg.len();
+                    for lab in &n[..split] { msg.push(lab.len() as u8); msg.extend_from_slice(lab); }
+                    msg.extend_from_slice(&[0xC0, 12]);
+                    let mut parser = domain::dep::octseq::Parser::from_ref(&msg[..]);
+                    parser.advance(start).map_err(|_| ())?;
+                    let pn = domain::base::name::ParsedName::parse(&mut parser).map_err(|_| ())?;
+                    h(nsec3_hash::<_, _, Vec<u8>>(pn, Nsec3HashAlgorithm::SHA1, iters, &s))
+                }
+                _ => {
+                    let k: usize = repr[5..].parse().unwrap();
+                    let mut relw = vec![]; for lab in &n[..k] { relw.push(lab.len() as u8); relw.extend_from_slice(lab); }
+                    let rel = domain::base::name::RelativeName::from_octets(relw).map_err(|_| ())?;
+                    let abs: Name<Vec<u8>> = Name::from_octets(wire(&n[k..].to_vec())).map_err(|_| ())?;
+                    let ch = rel.chain(abs).map_err(|_| ())?;
+                    h(nsec3_hash::<_, _, Vec<u8>>(ch, Nsec3HashAlgorithm::SHA1, iters, &s))
+                }
+            }
+        });
+        let obs = match &res { Ok(Ok(h)) => hex(h), Ok(Err(_)) => "Err".into(), Err(_) => "Panic".into() };
+        out.case(&case, &obs, iters > 0 || !salt.is_empty(), &format!("hash_{}", if repr.starts_with("chain") { "chain" } else { repr.as_str() }));
+        out.check(obs == want, "nsec3_hash", &case, &obs);
+        // a re-cased spelling hashes alike
+    }
 }
 
 fn b32hex_encode_lower(b: &[u8]) -> Vec<u8> {
@@ -694,15 +735,28 @@ fn run_parse(out: &mut Out, d: &[u8]) {
     out.check((obs == "Ok") == ok, "bitmap_from_octets", &case, &obs);
 }
 
-fn run_bitmap(out: &mut Out, ts: &[u16], ps: &[u16]) {
+fn run_bitmap(out: &mut Out, ts: &[u16], ps: &[u16], ctor: &'static str) {
+    use domain::rdata::dnssec::RtypeBitmapBuilder;
     let j = |v: &[u16]| if v.is_empty() { "-".to_string() } else { v.iter().map(|x| x.to_string()).collect::<Vec<_>>().join(",") };
-    let case = format!("bm {} {}", j(ts), j(ps));
+    let case = format!("bm {} {} {}", j(ts), j(ps), ctor);
     out.begin(&case);
     let ts2 = ts.to_vec(); let ps2 = ps.to_vec();
     let res = catch_mut(move || {
-        let mut b = RtypeBitmap::<Vec<u8>>::builder();
-        for t in &ts2 { b.add(Rtype::from_int(*t)).unwrap(); }
-        let bm = b.finalize();
+        let bm: RtypeBitmap<Vec<u8>> = if ctor == "scan" {
+            // RtypeBitmap::scan over the mnemonics / TYPEnnn tokens
+            let toks: Vec<String> = ts2.iter().map(|t| format!("{}", Rtype::from_int(*t))).collect();
+            let mut sc = domain::base::scan::IterScanner::<_, Vec<u8>>::new(toks);
+            RtypeBitmap::scan(&mut sc).expect("scan")
+        } else {
+            let mut b: RtypeBitmapBuilder<Vec<u8>> = match ctor {
+                "new" => RtypeBitmapBuilder::<Vec<u8>>::new(),
+                "new_vec" => RtypeBitmapBuilder::new_vec(),
+                "with_builder" => RtypeBitmapBuilder::with_builder(Vec::new()),
+                _ => RtypeBitmap::<Vec<u8>>::builder(),
+            };
+            for t in &ts2 { b.add(Rtype::from_int(*t)).unwrap(); }
+            b.finalize()
+        };
         let probes: Vec<bool> = ps2.iter().map(|p| bm.contains(Rtype::from_int(*p))).collect();
         let listed: Vec<u16> = bm.iter().map(|t| t.to_int()).collect();
         (bm.as_slice().to_vec(), probes, listed)
@@ -908,7 +962,7 @@ fn main() {
         ps.push(r.u16()); ps.push(0); ps.push(65535);
         idx += 1;
         if !out.wants(idx) { continue; }
-        run_bitmap(&mut out, &ts, &ps);
+        run_bitmap(&mut out, &ts, &ps, ["builder", "new", "new_vec", "with_builder", "scan"][(i % 5) as usize]);
     }
     // from_octets cases
     let n_parse = if a.thorough { 3000 } else { 250 } * a.scale;
